@@ -231,7 +231,23 @@ def case_strategy(draw):
         doc["granular_markings"] = list(doc.get("granular_markings") or []) + [
             {"marking_ref": "marking-definition--613f2e26-407d-48c7-9eca-b8e91df99dc9", "selectors": ["labels.[%d]" % i for i in idx]}]
         shape = "long-list"
+    free = [p for p in G.all_paths(doc) if p.split(".")[-1] in FREE_DICTS and isinstance(G.get_path(doc, p), dict)
+            and re.match(r"^[a-z0-9_-]{3,250}(\.(\[\d+\]|[a-zA-Z0-9_-]{1,250}))*\Z", p)]
+    if "granular_markings" in cprops and free and draw(st.integers(0, 2)) == 0:
+        # a free-form dictionary with keys at the length limits (3..256 characters in 2.0, 1..250 in 2.1), each addressed by a selector
+        at = draw(st.sampled_from(sorted(free)))
+        keys = draw(st.lists(st.sampled_from(["k" * 250, "K" * 256, "kk-" * 85, "abc"] if ver == "2.0" else ["k" * 250, "K" * 249, "k", "Z9"]),
+                             min_size=1, max_size=2, unique=True))
+        for k in keys:
+            G.get_path(doc, at)[k] = draw(st.sampled_from(["v", "", 0, False]))
+        doc["granular_markings"] = list(doc.get("granular_markings") or []) + [
+            {"marking_ref": "marking-definition--613f2e26-407d-48c7-9eca-b8e91df99dc9", "selectors": ["%s.%s" % (at, k) for k in keys]}]
+        shape = "dict-key-limits"
     return {"ver": ver, "doc": doc, "wrap": wrap, "text": text, "shape": shape}
+
+
+# free-form dictionaries (keys chosen by the producer), by property name
+FREE_DICTS = {"environment_variables", "additional_header_fields", "request_header", "exif_tags", "document_info_dict", "ipfix", "startup_info"}
 
 
 def classes_of(case):
